@@ -32,7 +32,7 @@ def posStr : List Micro → String
 def stStr (s : St) : String :=
   let rd := match s.retDone with | none => "nil" | some false => "open" | some true => "closed"
   s!"p={b01 s.pending} a={b01 s.active} r={b01 s.reloading} s={s.suppress} f={progStr s.progress} " ++
-  s!"q={s.queue.length} e={b01 s.reloadErr} st={b01 s.staged} rd={rd} n={b01 s.notify} x={b01 s.exited} " ++
+  s!"q={s.queue.length} e={b01 s.reloadErr} st={b01 s.staged} rd={rd} n={b01 s.notify} x={b01 s.exited} ab={b01 s.marker} wa={b01 s.wAbort} " ++
   s!"M={posStr s.m} W={posStr s.w} g={s.gBlocked},{s.gStore},{s.gEnd},{s.gRead},{s.gWrite}"
 
 /-! ### token forms of the path tables -/
@@ -95,8 +95,8 @@ def handlerForms : List String :=
 def signalForms : List String :=
   [ "case:SIGHUP !next",
     "case:SIGINT,SIGTERM,SIGQUIT,SIGKILL !break",
-    "case:SIGUSR1 queue:reload !next",
-    "case:SIGUSR2 queue:suspend !next",
+    "case:SIGUSR1 takeabort queue:reload !next",
+    "case:SIGUSR2 takeabort queue:suspend !next",
     "case:default !next" ]
 
 /-- `waitForControlPlaneDrain`: every exit of its select, for every budget (the timer is armed
@@ -128,6 +128,32 @@ def retgoForms : List String :=
     ["hassucc=0", "hassucc=1 cleanup"].map fun b =>
       "defer:close(done) markretired retireconns:drainBudget " ++ a ++ " closeplane " ++ b ++ " !end"
 
+def progCodeName : Prog → String
+  | .send => "ReloadSend" | .processing => "ReloadProcessing" | .done => "ReloadDone" | .doneClr => "ReloadDone"
+  | .error => "ReloadError" | .busyActive => "ReloadBusy" | .busyRetiring => "ReloadBusy"
+
+def allProgs : List Prog := [.send, .processing, .done, .doneClr, .error, .busyActive, .busyRetiring]
+
+def sortStrs (l : List String) : List String := (l.toArray.qsort (· < ·)).toList
+
+/-- facts about code outside the path regions that the model relies on: the client's pre-check is
+`Prog.cliAccepts`; the three channels of `Run` have one slot; every dispatched signal is subscribed;
+the ready wait and the prepare contexts have their time-outs; the start-up goroutine only writes
+Done "" and notifies. -/
+def factForms : List String :=
+  let acc := sortStrs ((allProgs.filter Prog.cliAccepts).map progCodeName).eraseDups
+  [ "pins worker ctx:reloadPrepareTimeout*3 !fact",
+    "pins handler wait:reloadReadyTimeout*2 !fact",
+    "ctor startup lit{notify,prog=2} !fact",
+    "ctor sigs chanos.Signal cap=1 !fact",
+    "ctor runStateChanges chanstruct{} cap=1 !fact",
+    "ctor reloadReqs chanreloadRequest cap=1 !fact",
+    "ctor notify sigs SIGHUP,SIGILL,SIGINT,SIGQUIT,SIGTERM,SIGUSR1,SIGUSR2 !fact",
+    "cli reload precheck signals-only-on=" ++ ",".intercalate acc ++ " needs-readable=1 else=returns-without-signal !fact",
+    "cli reload abortmarker=after-precheck !fact",
+    "cli reload stops-waiting-on=ReloadBusy,ReloadDone,ReloadError !fact",
+    "cli suspend reads-progress=0 abortmarker=1 !fact" ]
+
 def regionForms : String → Option (List String)
   | "worker" => some workerForms
   | "handler" => some handlerForms
@@ -136,6 +162,7 @@ def regionForms : String → Option (List String)
   | "retire" => some retireForms
   | "startret" => some startretForms
   | "retgo" => some retgoForms
+  | "facts" => some factForms
   | _ => none
 
 /-! ### retirement clock ops -/
@@ -169,13 +196,23 @@ def retireLine (toks : List String) : Option String := do
     match runActs s1 [.tick d, .closeG, .gStore, .gEnd, .gRead] with
     | some s2 =>
       let ab := "|".intercalate ((retireAborted sc).eraseDups.map b01)
-      some (s!"done={d} aborted={ab} oldcancel=1 final={fin s2}" ++ (if late then " clock-not-urgent" else ""))
+      -- the mute window: muted at the release, still muted one ns before it ends, not afterwards
+      let isMuted := fun (s : St) => decide (0 < s.suppress) || decide (0 < s.muteLeft)
+      let m0 := isMuted s2
+      let m1 := (step s2 (.tick (quiesceNs - 1))).map isMuted
+      let m2 := (step s2 (.tick quiesceNs)).map isMuted
+      let ob := fun (o : Option Bool) => match o with | some b => b01 b | none => "x"
+      some (s!"done={d} aborted={ab} oldcancel=1 final={fin s2} mute={b01 m0},{ob m1},{ob m2}" ++
+        (if late then " clock-not-urgent" else ""))
     | none => some "disabled"
   | none => some "disabled"
 
 def retOp (ws : List String) : Option String :=
   match ws with
   | ["const", "total"] => some s!"total={totalSwitchBudget}"
+  | ["const", "quiesce"] => some s!"quiesce={quiesceNs}"
+  | ["const", "readywait"] => some "positive=1"
+  | ["const", "preparewait"] => some "positive=1"
   | ["budget", z, age, b] => do
     let a ← age.toInt?; let bb ← b.toInt?
     pure s!"rem={remBudget (z == "1") a bb}"
@@ -216,6 +253,8 @@ def act? : List String → Option Act
   | ["swallow", k] => (kind? k).map .swallow
   | ["term"] => some .term
   | ["cli"] => some .cliSend
+  | ["mark"] => some .cliMark
+  | ["spur"] => some .spuriousNotify
   | "wake" :: toks => (handlerIndex? (" ".intercalate toks)).map .wake
   | "wstart" :: toks => (workerIndex? (" ".intercalate toks)).map .wStart
   | ["m"] => some .stepM
